@@ -882,6 +882,22 @@ def renderBlockOf (body : Run) (ctx : Scope) (st : St) : R × Bytes :=
   let r := walkBlockOf body ctx { st with out := [] }
   (⟨r.cls, r.ctx, { r.st with out := st.out }⟩, bufBytes r.st.out)
 
+/-- evalCall: the scope the callee's params are bound in — data="all": the caller's frames up to the
+    entered one plus a fresh frame; data="$e": that map plus a fresh frame; neither: a fresh map. -/
+def callData (g : GEnv) (allData : Bool) (data : Option Expr) (ctx : Scope) (st : St) : Option (Scope × St) :=
+  if allData then
+    match alldata ctx with
+    | none => none
+    | some sc => some (push sc st)
+  else match data with
+    | some e =>
+      match evalIn g e ctx st with
+      | some (.map _ kvs, st1) =>
+        let (sc, st2) := newScope kvs true st1
+        some (push sc st2)
+      | _ => none
+    | none => some (newScope [] false st)
+
 /-! ### the tree walk -/
 
 /-- the effective `s.autoescape != AutoescapeOff` of a template's state -/
@@ -897,21 +913,14 @@ def execCmd : Cmd → Run
   | .rawText _ text, ctx, st => ⟨.ok, ctx, write st text⟩
   | .print pos arg dirs, ctx, st => evalPrint g esc pos arg dirs ctx st
   | .msg _ id _ _ _ body, ctx, st =>
-    -- evalMsg: the body is a block of its own
-    let (ctx1, st1) := push ctx st
-    let r : R :=
+    -- evalMsg: the body is a block of its own (push … defer pop)
+    walkBlockOf (fun ctx1 st1 =>
       match g.msgs with
       | none => walkMsgBody body ctx1 st1
       | some b =>
         match b.message id with
         | none => walkMsgBody body ctx1 st1
-        | some parts => evalMParts g (phAll body 0) body parts ctx1 st1
-    match r.cls with
-    | .ok =>
-      match pop r.ctx with
-      | none => ⟨.err, r.ctx, r.st⟩
-      | some ctx2 => ⟨.ok, ctx2, r.st⟩
-    | _ => r
+        | some parts => evalMParts g (phAll body 0) body parts ctx1 st1) ctx st
   | .css _ e suffix, ctx, st =>
     match e with
     | none => ⟨.ok, ctx, write st suffix⟩
@@ -946,21 +955,7 @@ def execCmd : Cmd → Run
     match Registry.lookup g.reg name with
     | none => ⟨.err, ctx, st⟩
     | some callee =>
-      -- the data to pass
-      let cd : Option (Scope × St) :=
-        if allData then
-          match alldata ctx with
-          | none => none
-          | some sc => some (push sc st)
-        else match data with
-          | some e =>
-            match evalIn g e ctx st with
-            | some (.map _ kvs, st1) =>
-              let (sc, st2) := newScope kvs true st1
-              some (push sc st2)
-            | _ => none
-          | none => some (newScope [] false st)
-      match cd with
+      match callData g allData data ctx st with
       | none => ⟨.err, ctx, st⟩
       | some (callData, st1) =>
         let r := execParams params callData ctx st1
